@@ -40,6 +40,7 @@ class Framer(tasking.Tasker):
        instance attributes
             .main = main frame when this framer is an auxiliary
             .original = clone state, False if clone True if not clone
+            .origin = name of the framer this framer was cloned from, None if not clone
             .insular = clone that is visible only to main framer
             .razeable = clone that can be explicitly razed at run time
             .done = auxiliary completion state True or False when an auxiliary
@@ -85,6 +86,7 @@ class Framer(tasking.Tasker):
 
         self.main = None  #when aux framer, frame that is running this aux
         self.original = True  # as in not a clone
+        self.origin = None  # name of framer this one was cloned from if any
         self.insular = False  # as in a clone that is visible only to the main framer
         self.razeable = False  # as in a clone that can be explicitly razed at run time
         self.done = True #when aux or slave framer, completion state, set to False on enterAll
@@ -169,6 +171,7 @@ class Framer(tasking.Tasker):
         console.terse("         Cloning contents of Framer original '{0}' to clone '{1}'\n"
                         "".format(self.name, clone.name))
         clone.schedule = schedule
+        clone.origin = self.name
         clone.first = self.first # resolve later
         clone.moots = copy.deepcopy(self.moots)
         clone.inode = self.inode
@@ -296,6 +299,20 @@ class Framer(tasking.Tasker):
                                      contexts=[MOOT],
                                      human=human,
                                      count=count)
+
+            # a moot that clones itself, directly or through other moots, would
+            # clone forever so refuse if original is already in own clone ancestry
+            framer = self
+            while not framer.original:
+                if framer.origin == original.name:
+                    raise excepting.ResolveError("Recursive clone of moot framer",
+                                                 name=original.name,
+                                                 value=self.name,
+                                                 human=human,
+                                                 count=count )
+                if not framer.main:
+                    break
+                framer = framer.main.framer
 
             if tag in self.auxes:  # tag must be unique to framer
                 raise excepting.ResolveError("Clone tag already in use",
